@@ -226,7 +226,7 @@ def _multi_cases(tier, rng):
             if sw.get("constants"):
                 sw["constants"] = {f"const_{g[0]}": 1}
             ops.append(sw)
-        yield {"ops": ops, "kind": rng.choice(("product", "add"))}
+        yield {"ops": ops, "kind": rng.choice(("product", "add", "add-right", "add-nested"))}
     # products of 3 and 4 operands in which *every* operand excludes something of its own
     full = {"a": ["a0", "a1"], "b": ["b0", "b1"], "c": ["c0", "c1", "c2"], "d": ["d0", "d1"], "f": ["f0", "f1", "f2"]}
     pool = [("a", "a_is_first"), ("b", "b_is_last"), ("c", "c_first"), ("d", "d_first"), ("f", "f_last")]
@@ -268,10 +268,20 @@ def _check_multi(case):
         # concatenation of the operands' own combination lists (each operand's list is checked by sweep-enumeration)
         want = [d for r in real for d in r.list()]
         try:
-            m = real[0]
-            for r in real[1:]:
-                m = m + r
+            if case["kind"] == "add-right":  # s1 + (s2 + s3): a MultiSweep as an operand
+                m = real[-1]
+                for r in reversed(real[:-1]):
+                    m = r + m
+            elif case["kind"] == "add-nested":
+                from pipefunc.sweep import MultiSweep
+                m = MultiSweep(real[0], MultiSweep(*real[1:]))
+            else:
+                m = real[0]
+                for r in real[1:]:
+                    m = m + r
             got = m.list()
+            if list(iter(m)) != got:
+                bad.append("add: iteration != list()")
         except Exception as e:  # noqa: BLE001
             return [f"add-raised-{type(e).__name__}: {str(e)[:80]}"]
         if [sorted(d.items()) for d in got] != [sorted(d.items()) for d in want]:
